@@ -947,8 +947,11 @@ impl<'de, R: Read<'de>> Deserializer<R> {
                 return Ok(ParserNumber::U64(unsigned));
             }
         } else {
-            if let Ok(signed) = buf.parse() {
-                return Ok(ParserNumber::I64(signed));
+            if let Ok(signed) = buf.parse::<i64>() {
+                // Keep `-0` as a string: as an integer it would lose its sign.
+                if signed != 0 {
+                    return Ok(ParserNumber::I64(signed));
+                }
             }
         }
         Ok(ParserNumber::String(buf))
